@@ -24,6 +24,7 @@ class C17(Prop):
         "NV.C17.relocate_roundtrip",
         "NV.C17.relocate_offsets_preserved",
         "NV.C17.switch_tables_sorted_after_patch",
+        "NV.C17.patch_roundtrip",
     ]
     witness_theorems = [
         "NV.C17.old_type_start_loop_wrong",
@@ -89,6 +90,10 @@ class C17(Prop):
         need_lb("source", r"check_times\s*\(mtime,\s*name\)\s*<=\s*0")
         need_lb("include", r"check_times\s*\(mtime,\s*iname\)\s*<=\s*0")
         need_lb("inherit", r"check_times\s*\(mtime,\s*buf\)\s*<=\s*0\s*\|\|\s*check_times\s*\(mtime,\s*file_name_two\)\s*==\s*0")
+        need_lb("binary-path", r"if\s*\(file_name\[0\]\s*==\s*'/'\)\s*file_name\+\+;")
+        need_lb("inherited-binary-path", r"if\s*\(file_name_two\[0\]\s*==\s*'/'\)\s*file_name_two\+\+;")
+        need_lb("behind-inherited", r"inherited_program_newer\s*\(mtime,\s*ob->prog\)")
+        need_lb("simul-newer", r"simul_efun_path\[0\]\s*&&\s*check_times\s*\(mtime,\s*simul_efun_path\)\s*==\s*0")
         need_lb("driver_id", r"driver_id\s*!=\s*bin_driver_id")
         need_lb("config_id", r"config_id\s*!=\s*bin_config_id")
         need_lb("magic", r"strncmp\s*\(buf,\s*magic_id,\s*strlen\s*\(magic_id\)\)\s*!=\s*0")
